@@ -470,6 +470,14 @@ def oracle_order_column(ctx, case, tables, A, B, dt, method, nxseg, col, Nch, or
                  case, key="C05:%s:%s" % (key, "values" if dd > tol else "shapes"))
 
 
+def readonly(x):
+    """A read-only presentation of an input array (memory-mapped files, broadcast views and frozen arrays are read-only):
+    the library has no business writing into what it is given."""
+    y = np.array(x, copy=True)
+    y.setflags(write=False)
+    return y
+
+
 def coef_tol(cond):
     """Tolerance of exact recovery, scaled by the conditioning of the constrained least-squares problem: the code forms normal
     equations, so its error is ~ eps * cond(J)^2.  Calibrated on the unchanged tree (500 draws over all shapes, 700 in the corner
@@ -608,13 +616,39 @@ def run(ctx):
                          dt=float(dts[int(rng.integers(0, len(dts)))]), method="per" if j % 5 else "cor", nxseg=int(rng.choice([64, 256])),
                          A=A, B=B, extra_order=extra, oracle_only=True, src="above", floor=0.0 if j < n_above else 1e-7,
                          floor_seed=int(rng.integers(0, 2 ** 31))))
+    # "deficient single reference": one reference row of B(z) carries no information on A by itself - a flat spectrum row
+    # b(z) = c^T A(z), a duplicate of another row, or an identically zero row - placed first / middle / last among generic rows.
+    # The stack of all references still determines A (judged only when the conditioning guard of the whole problem says so).
+    for j, (kind_, pos) in enumerate([(k_, p_) for k_ in ("flat", "dup", "zero") for p_ in ("first", "middle", "last")] * ctx.n(1, 3)):
+        n = 1 + j % 3
+        Nch = 2 + (j // 2) % 2
+        Nref = 3 if pos == "middle" or j % 2 else 2
+        A, B = gen_system(rng, n, Nch, Nref)
+        o = dict(first=0, middle=1, last=Nref - 1)[pos]
+        other = (o + 1) % Nref
+        if kind_ == "flat":
+            c = dyad(rng, (Nch,), amp=8, den=4)
+            c[0] = c[0] or 0.5
+            B[:, o, :] = np.array([c @ A[i] for i in range(n + 1)])
+        elif kind_ == "dup":
+            B[:, o, :] = B[:, other, :]
+        else:
+            B[:, o, :] = 0.0
+        plan.append(dict(n=n, Nch=Nch, Nref=Nref, Nf=4 * (n + 1) + int(rng.integers(0, 12)), sgn=-1 if j % 2 else 1,
+                         dt=float(dts[int(rng.integers(0, len(dts)))]), method="per" if j % 4 else "cor", nxseg=int(rng.choice([64, 256])),
+                         A=A, B=B, extra_order=False, oracle_only=j >= 6, src="deficient", deficient="%s reference row %s (row %d of %d)" % (kind_, pos, o, Nref)))
     above = dict(total=0, raised=0, first=None)
     n_model = 0
-    for it in plan:
+    for idx, it in enumerate(plan):
         n, Nch, Nref, Nf, sgn, dt, method, nxseg = it["n"], it["Nch"], it["Nref"], it["Nf"], it["sgn"], it["dt"], it["method"], it["nxseg"]
         A, B = it["A"], it["B"]
         case = dict(kind="exact-spectrum", n=n, Nch=Nch, Nref=Nref, Nf=Nf, sgn_basf=sgn, dt=dt, methodSy=method, nxseg=nxseg,
                     A=A.tolist(), B=B.tolist(), corpus=it.get("corpus"))
+        if it.get("deficient"):
+            case = dict(case, deficient=it["deficient"])
+        ro = bool(it.get("readonly")) or idx % 3 == 1
+        if ro:
+            case = dict(case, readonly=True)
         Sy, worstA = spectrum(A, B, Nf, sgn)
         fix = 0 if sgn == -1 else n
         cond = ls_condition(A, B, Sy, Nf, sgn, fix)
@@ -643,7 +677,11 @@ def run(ctx):
             above["total"] += 1
         sg = sgn if rng.random() < 0.5 else float(sgn)
         try:
-            Ad, Bn = plscf.pLSCF(Sy, dt, ordmax, sgn_basf=sg)
+            Sy_in = readonly(Sy) if ro else Sy.copy()
+            Ad, Bn = plscf.pLSCF(Sy_in, dt, ordmax, sgn_basf=sg)
+            if not np.array_equal(Sy_in, Sy):
+                ctx.fail("oracle", "pLSCF modified the spectrum it was given", case, key="C05:pLSCF:input-modified")
+                continue
         except np.linalg.LinAlgError:
             if ordmax > n and floor:
                 ctx.fail("oracle", "pLSCF raised LinAlgError for ordmax = %d > n = %d on a spectrum with a %.0e full-rank floor (nothing is singular): "
@@ -658,8 +696,9 @@ def run(ctx):
             ctx.fail("oracle", "pLSCF raised LinAlgError on a well-conditioned exactly rational spectrum at ordmax = n", case, key="C05:pLSCF:linalg")
             continue
         except Exception as e:  # noqa: BLE001
-            ctx.fail("oracle", "pLSCF raised %s on a well-conditioned exactly rational spectrum (Nref x Nch x Nf = %s)" % (type(e).__name__, Sy.shape,),
-                     case, key="C05:pLSCF:raise")
+            ctx.fail("oracle", "pLSCF raised %s on a well-conditioned exactly rational spectrum (Nref x Nch x Nf = %s)%s" % (
+                type(e).__name__, Sy.shape, " handed over as a read-only array: %s" % str(e)[:80] if ro else ""),
+                     case, key="C05:pLSCF:raise-readonly" if ro else "C05:pLSCF:raise")
             continue
         if len(Ad) != ordmax or len(Bn) != ordmax:
             ctx.fail("oracle", "pLSCF returned %d/%d coefficient sets for ordmax=%d" % (len(Ad), len(Bn), ordmax), case, key="C05:pLSCF:orders")
@@ -690,7 +729,7 @@ def run(ctx):
             metas.append(("resid", case, dict(Sy=Sy, al=Ad[n - 1], be=Bn[n - 1], n=n, Nch=Nch, Nref=Nref, Nf=Nf, oracle_ok=ok)))
         # poles of every returned order
         try:
-            tables = plscf.pLSCF_poles(Ad, Bn, dt, method, nxseg)
+            tables = plscf.pLSCF_poles([readonly(a) for a in Ad], [readonly(b) for b in Bn], dt, method, nxseg) if ro else plscf.pLSCF_poles(Ad, Bn, dt, method, nxseg)
         except Exception as e:  # noqa: BLE001
             if isinstance(e, np.linalg.LinAlgError) and ordmax > n and not floor:
                 # the coefficients of an over-specified order on exact data are rounding noise (possibly non-finite or with a
@@ -753,10 +792,16 @@ def run(ctx):
                     leading=None if near is None else "I + D, |D| = %g, A_0 %s" % (near[0], "= I" if near[1] else "generic"))
         ctx.count(case, nontrivial=p >= 2 or m != l_)
         ctx.hist("rmfd2ac(p,m,l)", (p, m, l_))
+        ro = k % 3 == 1
         try:
-            Ac, Cc = plscf.rmfd2ac(A, B)
+            A_in, B_in = (readonly(A), readonly(B)) if ro else (A.copy(), B.copy())
+            Ac, Cc = plscf.rmfd2ac(A_in, B_in)
         except Exception as e:  # noqa: BLE001
-            ctx.fail("oracle", "rmfd2ac raised %s on coefficient blocks with an invertible leading block" % type(e).__name__, case, key="C05:rmfd2ac:raise")
+            ctx.fail("oracle", "rmfd2ac raised %s on coefficient blocks with an invertible leading block%s" % (type(e).__name__, " (read-only arrays)" if ro else ""),
+                     dict(case, readonly=ro), key="C05:rmfd2ac:raise-readonly" if ro else "C05:rmfd2ac:raise")
+            continue
+        if not (np.array_equal(A_in, A) and np.array_equal(B_in, B)):
+            ctx.fail("oracle", "rmfd2ac modified the coefficient arrays it was given", case, key="C05:rmfd2ac:input-modified")
             continue
         N = (p + 1) * m
         if Ac.shape != (N, N) or Cc.shape != (l_, N):
@@ -833,10 +878,17 @@ def run(ctx):
                     corpus=None if k >= 0 else direct[k + len(direct)]["corpus"])
         ctx.count(case, nontrivial=True)
         ctx.hist("poles-direct(ordmax,n,Nch,Nref)", (ordmax, n, Nch, Nref))
+        ro = k % 3 == 1
         try:
-            tables = plscf.pLSCF_poles(Ad, Bn, dt, method, nxseg)
+            Ad_in = [readonly(a) if ro else a.copy() for a in Ad]
+            Bn_in = [readonly(b) if ro else b.copy() for b in Bn]
+            tables = plscf.pLSCF_poles(Ad_in, Bn_in, dt, method, nxseg)
         except Exception as e:  # noqa: BLE001
-            ctx.fail("oracle", "pLSCF_poles raised %s on a valid coefficient list" % type(e).__name__, case, key="C05:poles:raise")
+            ctx.fail("oracle", "pLSCF_poles raised %s on a valid coefficient list%s" % (type(e).__name__, " (read-only arrays)" if ro else ""),
+                     dict(case, readonly=ro), key="C05:poles:raise-readonly" if ro else "C05:poles:raise")
+            continue
+        if not all(np.array_equal(x, y) for x, y in zip(Ad_in + Bn_in, Ad + Bn)):
+            ctx.fail("oracle", "pLSCF_poles modified the coefficient arrays it was given", case, key="C05:poles:input-modified")
             continue
         if degenerate is None:
             oracle_order_column(ctx, case, tables, A, B, dt, method, nxseg, n - 1, Nch, ordmax, "direct", tight=direct_tols(A)[:2])
@@ -922,7 +974,11 @@ def class_level(ctx, rng, dts):
             freq = np.linspace(0.0, fs / 2, Nf)
             calls = []
 
-            def stub(Yall, Yref, dt_, nxseg=1024, method="cor", pov=0.5, _f=freq, _S=Sy, _c=calls):
+            ro = k % 2 == 1   # the spectrum estimate arrives as read-only arrays (e.g. memory-mapped results)
+            Sy_given = readonly(Sy) if ro else Sy.copy()
+            freq = readonly(freq) if ro else freq
+
+            def stub(Yall, Yref, dt_, nxseg=1024, method="cor", pov=0.5, _f=freq, _S=Sy_given, _c=calls):
                 _c.append((float(dt_), int(nxseg), method))
                 return _f, _S
 
@@ -935,7 +991,12 @@ def class_level(ctx, rng, dts):
             case = dict(kind="class", n=n, Nch=Nch, Nref=Nref, Nf=Nf, fs=fs, methodSy=method, nxseg=nxseg, A=A.tolist(), B=B.tolist())
             ctx.count(case, nontrivial=True)
             ctx.hist("class(method)", method)
-            ss.run_by_name("p")
+            try:
+                ss.run_by_name("p")
+            except Exception as e:  # noqa: BLE001
+                ctx.fail("oracle", "pLSCF.run raised %s on an exactly rational spectrum estimate%s: %s" % (type(e).__name__, " (read-only arrays)" if ro else "", str(e)[:80]),
+                         dict(case, readonly=ro), key="C05:class:raise-readonly" if ro else "C05:class:raise")
+                continue
             r = alg.result
             if not calls or abs(calls[0][0] - dt) > 1e-15 or calls[0][1] != nxseg or calls[0][2] != method:
                 ctx.fail("oracle", "pLSCF.run did not estimate the spectrum with the run parameters (dt, nxseg, method_SD): %s" % (calls[:1],), case, key="C05:class:sd-args")
